@@ -24,7 +24,7 @@ pub const DEF: PropDef = PropDef {
     assumptions: &[
         "non-termination cannot be demonstrated by generated search: a no-progress watchdog reports INCONCLUSIVE (exit 2), never a violation",
         "stack depth is checked for the two cargo profiles (release, dev-like o0) of this toolchain on x86-64",
-        "memory exhaustion is C15's subject: a worker whose live heap exceeds the cap (4 GiB) ends the case as resource-capped and is not counted as a violation",
+        "memory exhaustion is C15's subject: a worker whose live heap exceeds the cap (2 GiB) ends the case as resource-capped and is not counted as a violation",
     ],
 };
 
@@ -412,7 +412,7 @@ pub fn exec_in_worker(profile: &str, case: &Case, dir: &str, tag: &str) -> ExecR
         match child.try_wait() {
             Ok(Some(_)) => break,
             Ok(None) => {
-                if t0.elapsed() > Duration::from_secs(180) {
+                if t0.elapsed() > Duration::from_secs(450) {
                     let _ = child.kill();
                     let _ = child.wait();
                     return ExecResult::Hang;
@@ -565,7 +565,7 @@ fn run_explicit(ctx: &Ctx, phase: &str, profile: &str, cases: &[(String, Case)],
                     }
                     ExecResult::Hang => {
                         ctx.harness_err.lock().unwrap().get_or_insert(format!(
-                            "watchdog: case '{}' ran > 180 s in profile {} (inconclusive)",
+                            "watchdog: case '{}' ran > 450 s in profile {} (inconclusive)",
                             name, profile
                         ));
                         ctx.stop.store(true, std::sync::atomic::Ordering::SeqCst);
@@ -646,14 +646,14 @@ fn run_search(ctx: &Ctx, phase: &str, profile: &str, total: u32, dir: &str) {
                             if now != last {
                                 last = now;
                                 last_change = Instant::now();
-                            } else if last_change.elapsed() > Duration::from_secs(120) {
+                            } else if last_change.elapsed() > Duration::from_secs(300) {
                                 let _ = child.kill();
                                 let _ = child.wait();
                                 let keep = format!("{}/C01-hang.json", crate::engine::out_dir("replays"));
                                 let _ = std::fs::create_dir_all(crate::engine::out_dir("replays"));
                                 let _ = std::fs::copy(&cur, &keep);
                                 ctx.harness_err.lock().unwrap().get_or_insert(format!(
-                                    "watchdog: no progress for 120 s in {} worker (case saved to {}) - inconclusive",
+                                    "watchdog: no progress for 300 s in {} worker (case saved to {}) - inconclusive",
                                     profile, keep
                                 ));
                                 ctx.stop.store(true, std::sync::atomic::Ordering::SeqCst);
